@@ -243,6 +243,17 @@ func pinnedCases() []pinned {
 		resp2.Fields = []*schema.Field{{Name: "items", Number: 1, Kind: schema.KString, Card: schema.Repeated, Ann: &schema.Ann{Unwrap: true}}}
 		out = append(out, pinned{File: "C14/client_has_no_unwrap_codec.json", Doc: &c14Case{Property: "C14", Kind: "behaviour", Schema: s2}})
 	}
+	{
+		s, _, _, _, svc := baseSchema("p0042")
+		svc2 := &schema.Service{Name: "OtherService", Methods: []*schema.Method{{Name: "Do", Input: s.Pkg + ".DoRequest", Output: s.Pkg + ".DoResponse", HasConfig: true, Path: "/other", Verb: 2}}}
+		s.Files[0].Services = append(s.Files[0].Services, svc2)
+		_ = svc
+		goCase("C13", "C13/same_method_name_two_services.json", "server", "", s)
+		s2, req2, _, _, _ := baseSchema("p0043")
+		req2.Oneofs = []*schema.Oneof{{Name: "content", Discriminator: "@type"}}
+		req2.Fields = append(req2.Fields, &schema.Field{Name: "text", Number: 2, Kind: schema.KString, Card: schema.Singular, Oneof: "content"})
+		out = append(out, pinned{File: "C13/ts_discriminator_not_identifier.json", Doc: &c13Case{Property: "C13", Kind: "ts", Schema: s2}})
+	}
 	// ---- C20 open ----
 	{
 		s, _, resp, _, _ := baseSchema("p0013")
